@@ -17,7 +17,10 @@ class C09(EngineProp):
                   'point, CANCEL injected on the wire 0..5 ticks after the request, and Rx / ReactiveX result observables disposed at any moment incl. the subscribing loop iteration.')
     level_note = 'Trusted: as C07; generator close() semantics of CPython for the library sources.'
     design_ref = '§5 C09'
-    rule = 'as C07 with cancellation-heavy scripts: cancel injected at any position incl. "request and cancel in one read", "cancel racing completion", "response racing cancel"'
+    rule = ('as C07 with cancellation-heavy scripts: cancel injected at any position incl. "request and cancel in one read", "cancel racing completion", "response racing cancel"; '
+            'cancel() on each of the library\'s stream sources; CANCEL frames against a real server; disposal of Rx result observables; and the library\'s own canceller - a CollectorSubscriber '
+            '(limit rate 1..5, limit count a multiple of it or not) on a real client against a real server serving a generator source, every frame delivered in a loop turn of its own: '
+            'one CANCEL, nothing collected beyond the limit, the application\'s generator not advanced after the source was cancelled')
     assumptions = ['the peer is protocol-legal']
 
     def cases(self, rng, tier):
@@ -43,10 +46,19 @@ class C09(EngineProp):
         for _ in range(n // 2):
             out.append({'mode': 'wire-cancel', 'role': 'server', 'profile': 'source-cancel', 'kind': rng.choice(sources.KINDS), 'count': rng.choice([0, 3, 6]),
                         'channel': rng.random() < 0.4, 'n0': rng.choice([1, 2, 5]), 'ticks': rng.choice([0, 0, 1, 2, 5])})
+        # the library's own canceller: a CollectorSubscriber that cancels once it has `limit_count` elements, on a real client talking to a
+        # real server whose handler serves one of the library's sources; every frame is delivered in a loop turn of its own
+        for _ in range(150 if tier == 'quick' else 3000):
+            L = rng.choice([1, 2, 3, 5])
+            out.append({'mode': 'collector-pair', 'role': 'both', 'profile': 'collector-pair', 'kind': rng.choice(['gen', 'agen']), 'L': L,
+                        'C': rng.choice([L, 2 * L, 2 * L, 3 * L, L + 1, 1, 4]), 'count': rng.choice([12, 20]), 'channel': rng.random() < 0.7,
+                        'open_upstream': rng.random() < 0.7, 'seed': rng.getrandbits(30)})
         return out
 
     def run_impl(self, case):
         from harness import detloop, sources
+        if case.get('mode') == 'collector-pair':
+            return detloop.run(self._collector_pair, case)
         if case.get('mode') == 'source':
             return detloop.run(sources.drive, case)
         if case.get('mode') == 'wire-cancel':
@@ -55,6 +67,83 @@ class C09(EngineProp):
             from harness.props import c20
             return c20.PROP.run_impl(case['c20'])
         return super().run_impl(case)
+
+    async def _collector_pair(self, loop, case):
+        import asyncio
+        import random
+        from datetime import timedelta
+        from harness import sources, link as LK
+        from rsocket.rsocket_client import RSocketClient
+        from rsocket.rsocket_server import RSocketServer
+        from rsocket.helpers import single_transport_provider
+        from rsocket.request_handler import BaseRequestHandler
+        from rsocket.awaitable.collector_subscriber import CollectorSubscriber
+        from rsocket.payload import Payload
+        from rsocket import frame as F
+        rng = random.Random(case['seed'])
+        pulls, cancelled = [], []
+        src = sources.make_source(case['kind'], case['count'], False, False, on_cancel=lambda: cancelled.append(len(pulls)), pulls=pulls)
+
+        class H(BaseRequestHandler):
+            async def request_stream(self, payload):
+                return src
+
+            async def request_channel(self, payload):
+                return src, (UpSub() if case['open_upstream'] else None)
+
+        class UpSub:
+            # the responder's application listens to the requester's direction (and never asks for anything)
+            def on_subscribe(self, s): pass
+            def on_next(self, v, is_complete=False): pass
+            def on_complete(self): pass
+            def on_error(self, e): pass
+
+        class IdlePub:
+            # the requester's own sending direction stays open: the responder keeps the channel registered after the CANCEL
+            def subscribe(self, subscriber):
+                class S:
+                    def request(self, n): pass
+                    def cancel(self): pass
+                subscriber.on_subscribe(S())
+        lk = LK.Link(loop, False)
+        server = RSocketServer(lk.ends[1], handler_factory=H)
+        client = RSocketClient(single_transport_provider(lk.ends[0]), keep_alive_period=timedelta(seconds=100000), max_lifetime_period=timedelta(seconds=1000000))
+        await client.connect()
+        await loop.settle()
+        while await lk.deliver(0, rng):
+            await loop.settle()
+        col = CollectorSubscriber(limit_rate=case['L'], limit_count=case['C'])
+        if case['channel']:
+            client.request_channel(Payload(b'q'), publisher=IdlePub() if case['open_upstream'] else None).initial_request_n(case['L']).subscribe(col)
+        else:
+            client.request_stream(Payload(b'q')).initial_request_n(case['L']).subscribe(col)
+        task = asyncio.ensure_future(col.run())
+        await loop.settle()
+        pulls_at_cancel = None
+        for _ in range(400):
+            did = False
+            for side in (0, 1):
+                if await lk.deliver(side, rng):
+                    did = True
+                    await loop.settle()      # one frame per loop turn
+                    if pulls_at_cancel is None and cancelled:
+                        pulls_at_cancel = cancelled[0]
+            if not did:
+                break
+        sent = lk.sent_frames[0]
+        idx = next((i for i, f in enumerate(sent) if isinstance(f, F.CancelFrame)), None)
+        after = [type(f).__name__ for f in sent[idx + 1:] if f.stream_id == sent[idx].stream_id] if idx is not None else []
+        res = {'collected': len(col.values), 'done': task.done(), 'cancels': len([f for f in sent if isinstance(f, F.CancelFrame)]), 'frames_after_cancel': after,
+               'publisher_cancelled': len(cancelled), 'pulls_at_cancel': pulls_at_cancel, 'pulls_total': len(pulls),
+               'elements_after_cancel': len([f for f in lk.sent_frames[1] if isinstance(f, F.PayloadFrame) and f.flags_next]) }
+        if not task.done():
+            task.cancel()
+        try:
+            await client.close()
+            await server.close()
+        except Exception:
+            pass
+        return res
 
     async def _wire_cancel(self, loop, case):
         import asyncio
@@ -92,23 +181,23 @@ class C09(EngineProp):
         return res
 
     def model_lines(self, case, obs):
-        if case.get('mode') in ('source', 'wire-cancel', 'rx-dispose'):
+        if case.get('mode') in ('source', 'wire-cancel', 'rx-dispose', 'collector-pair'):
             return []
         return super().model_lines(case, obs)
 
     def compare(self, case, obs, answers):
-        if case.get('mode') in ('source', 'wire-cancel', 'rx-dispose'):
+        if case.get('mode') in ('source', 'wire-cancel', 'rx-dispose', 'collector-pair'):
             return None
         return super().compare(case, obs, answers)
 
     def nontrivial(self, case, obs):
-        if case.get('mode') in ('source', 'wire-cancel', 'rx-dispose'):
+        if case.get('mode') in ('source', 'wire-cancel', 'rx-dispose', 'collector-pair'):
             import json
             return json.dumps(case, sort_keys=True)
         return super().nontrivial(case, obs)
 
     def stats(self, case, obs):
-        if case.get('mode') in ('source', 'wire-cancel', 'rx-dispose'):
+        if case.get('mode') in ('source', 'wire-cancel', 'rx-dispose', 'collector-pair'):
             yield 'mode=' + case['mode']
             yield 'kind=' + case['kind']
             return
@@ -125,7 +214,7 @@ class C09(EngineProp):
             if case['ticks']:
                 yield dict(case, ticks=case['ticks'] - 1)
             return
-        if case.get('mode') == 'rx-dispose':
+        if case.get('mode') in ('rx-dispose', 'collector-pair'):
             return
         yield from super().shrink_candidates(case)
 
@@ -135,6 +224,22 @@ class C09(EngineProp):
         if case['mode'] == 'rx-dispose':
             from harness.props import c20
             return [f for f in c20.PROP.oracle(case['c20'], obs) if f['signature'].split(':')[0] in ('dispose-does-not-cancel', 'signals-after-dispose')]
+        if case['mode'] == 'collector-pair':
+            C, n = case['C'], case['count']
+            how = 'CollectorSubscriber(limit_rate=%d, limit_count=%d) on a request-%s served by a %s source of %d elements' % (case['L'], C, 'channel' if case['channel'] else 'stream', k, n)
+            if C > n:
+                return fails        # the source is exhausted first: nothing is cancelled
+            if obs['cancels'] != 1:
+                fails.append({'signature': 'collector-cancel-count', 'what': '%s: %d CANCEL frames' % (how, obs['cancels'])})
+                return fails
+            if obs['collected'] > C:
+                fails.append({'signature': 'delivery-after-cancel:collector', 'what': '%s: %d elements collected' % (how, obs['collected'])})
+            if obs['publisher_cancelled'] < 1:
+                fails.append({'signature': 'publisher-not-cancelled:collector', 'what': '%s: the source was never cancelled' % how})
+            elif obs['pulls_total'] > obs['pulls_at_cancel'] or obs['publisher_cancelled'] > 1:
+                fails.append({'signature': 'production-resumes-after-cancel', 'what': '%s: the application\'s generator had yielded %d elements when the source was cancelled and %d in the end (source cancelled %d times; canceller\'s frames after its CANCEL: %s)' % (
+                    how, obs['pulls_at_cancel'], obs['pulls_total'], obs['publisher_cancelled'], obs['frames_after_cancel'])})
+            return fails
         if case['mode'] == 'source':
             if obs['errors']:
                 fails.append({'signature': 'source-cancel-raises:' + k, 'what': 'cancel() on the %s source raised: %s (steps %s)' % (k, obs['errors'], case['steps'])})
@@ -161,7 +266,7 @@ class C09(EngineProp):
         return fails
 
     def oracle(self, case, obs):
-        if case.get('mode') in ('source', 'wire-cancel', 'rx-dispose'):
+        if case.get('mode') in ('source', 'wire-cancel', 'rx-dispose', 'collector-pair'):
             return self._source_oracle(case, obs)
         fails = []
         steps = obs['steps']
